@@ -10,9 +10,19 @@ if os.path.isdir(seed):
     wt = seed
 else:
     wt = f'/tmp/sc_{seed}_{os.getpid()}'
-    subprocess.run(['git', '-C', '/repo', 'worktree', 'add', '-q', '--detach', wt, 'HEAD'], check=True)
+    # a seed that was made against an earlier commit AND cannot be carried over (meta.json "base") is judged on that commit
+    import json
+    base = 'HEAD'
+    try:
+        base = json.load(open(f'/verif/seeded/{seed}/meta.json', encoding='utf-8')).get('base', 'HEAD')
+    except (OSError, ValueError):
+        pass
+    subprocess.run(['git', '-C', '/repo', 'worktree', 'add', '-q', '--detach', wt, base], check=True)
     made = True
-    subprocess.run(['git', '-C', wt, 'apply', f'/verif/seeded/{seed}/patch.diff'], check=True)
+    # seeds were made against an earlier HEAD: fall back to a three-way merge when a later fix touched the same lines
+    if subprocess.run(['git', '-C', wt, 'apply', f'/verif/seeded/{seed}/patch.diff'], check=False).returncode != 0:
+        subprocess.run(['git', '-C', wt, 'apply', '--3way', f'/verif/seeded/{seed}/patch.diff'], check=True)
+        subprocess.run(['git', '-C', wt, 'reset', '-q'], check=True)
 try:
     env = dict(os.environ, VF_REPO=wt)
     procs = [(i, subprocess.Popen(['/venv/bin/python', '-m', 'vf', 'check', i, '--tier', tier], cwd='/verif', env=env, stdout=subprocess.PIPE, stderr=subprocess.PIPE, text=True)) for i in ids.split(',')]
